@@ -27,10 +27,10 @@ def run(ctx):
                ("MCRP_liveT.cfg", "liveness (termination under weak fairness), n<=2", False),
                ("MCRP_big.cfg", "safety: 6 chunks, bounds 2/2 (both queues full), all faults, scripts<=1", False),
                ("MCRP_pbfq.cfg", "safety: real PBF parser fed through the input queue (header blob, early exit when the output queue is shut down)", False)]
-    _, mock, mockfd, pbf, big, pbfq = rpipe.parallel(lambda: rpipe.design(ctx, mcs, workers_each=4),
-                                                     lambda: rpipe.export(ctx, "mock"), lambda: rpipe.export(ctx, "mockfd"),
-                                                     lambda: rpipe.export(ctx, "realpbf"), lambda: rpipe.export(ctx, "mockbig"),
-                                                     lambda: rpipe.export(ctx, "realpbfq"))
+    _, mock, mockfd, pbf, big, pbfq, xmlq = rpipe.parallel(lambda: rpipe.design(ctx, mcs, workers_each=4),
+                                                           lambda: rpipe.export(ctx, "mock"), lambda: rpipe.export(ctx, "mockfd"),
+                                                           lambda: rpipe.export(ctx, "realpbf"), lambda: rpipe.export(ctx, "mockbig"),
+                                                           lambda: rpipe.export(ctx, "realpbfq"), lambda: rpipe.export(ctx, "realxmlq"))
     cases = []
     nseeds = 2 if quick else 4
     for i, c in enumerate(rpipe.sample(mock, 160 if quick else 2500, rnd, pred=faulty)):
@@ -56,6 +56,12 @@ def run(ctx):
                                    # damaged blob data is noticed where the blob is decoded (a pool worker when the pool is used);
                                    # a fault of the parser thread itself is then a damaged BlobHeader length
                                    corrupt=("len" if c["cfg"]["pool"] and c["cfg"]["fault"]["at"] > 1 else rnd.choice(["len", "data"]))))
+    # a real XML document through the input queue in n pieces: failing decompressor reads / close and documents that
+    # stop short of their closing tags (cut at several distances from the end: inside "</osm>", inside the last object)
+    okxml = lambda c: rpipe.mask_of(c["cfg"])
+    for i, c in enumerate(rpipe.sample(xmlq, 90 if quick else 900, rnd, pred=okxml)):
+        cases.append(rpipe.mk_case(i, "realxmlq", c, rnd, nseeds, format="xml", R=rnd.choice([3, 40]),
+                                   mask=rpipe.mask_of(c["cfg"]), meta=True, single=False, cut=rnd.choice([2, 7, 9, 40, 200])))
     nexec, nvalid = rpipe.run_cases(ctx, cases)
     finish(ctx, cases, nexec, nvalid)
 
@@ -80,7 +86,8 @@ def finish(ctx, cases, nexec, nvalid):
         "enumerated; every interleaving is enumerated on the spec only",
         "queue interface as verified by C19 (ThreadQueue.tla); real queue bounds are >= 2 (the library clamps), the model also covers 1",
         "faults are injected through the existing factory seams (mock decompressor / mock parser) and by truncating / corrupting "
-        "real PBF files; zlib/expat internals are environment",
+        "real PBF files / XML documents; zlib/expat internals are environment",
+        "realxmlq executions are compared at the API level only (the real XML parser decides how many buffers it makes of the data)",
         "header() after close() is outside the scripts: its result legitimately depends on how far the parser got"]
 
 
